@@ -107,6 +107,12 @@ def explore(res, scale=1, seed=None):
         if not ok:
             res.tie_broken("extraction", "vm_compute inside Coq disagrees with the extracted evaluator:\n" + slog)
         os.remove(out)
+    # reuse one level up: sequences of blocks (zero-row header-shaped blocks in between) into one set of result columns,
+    # typed and inferred - Results.DecodeResult resets every target before it decodes into it (direct oracle)
+    from lib import colfam
+    colfam.run_family(res, "c06seq", 250 * scale, seed, builds=("default",), sample=False)
+    # a reused String column and values beyond the reader's 1 MiB growth step (direct oracle)
+    colfam.run_direct(res, "c16str", 12 * scale, seed, builds=("default",))
     res.extra["exhaustive_part"] = (
         "every history of length <= %d over {Append A, Append B, Reset, Prepare, Prepare+EncodeColumn, Reset+Decode of a valid "
         "2-row encoding}, each from a fresh column, for the 13 kinds of c16Stateful in harness/c16.go (LowCardinality of "
